@@ -112,7 +112,7 @@ def c01_2(ctx, spec, rule="C01.2", only=None):
     op_local = names.index("op") + 1
     n = 0
     for row in spec["rows"]:
-        if only and row["template"] not in only:
+        if only and row["template"] not in only and ("name:" + row["name"]) not in only:
             continue
         try:
             got = apnf.paths_of(b, env0={op_local: row["op"]}, want=("Ok",))
